@@ -172,10 +172,12 @@ def run_hist(init_bp, hist, check_from=0):
                 # command (selected connection as marked in the listing; breakpoint printed as constant or not)
                 o0 = len(out.buffer)
                 env['ctl'].process_command('connection')
-                env['ctl'].process_command('breakpoint')
                 obs = sut._lines(out.buffer[o0:])
-                marked = [l.split()[1] for l in obs if l.lstrip().startswith('=>')]
-                bp_txt = [l[len('Breakpoint matcher: '):] for l in obs if l.startswith('Breakpoint matcher: ')]
+                o1 = len(out.buffer)
+                env['ctl'].process_command('breakpoint')
+                marked = [cl['name'] for cl in map(outparse.connection_line, obs) if cl and cl['selected']]
+                q = outparse.queried_matcher(sut._lines(out.buffer[o1:]))
+                bp_txt = [q] if q is not None else []
                 ref.impl_bp = bp_txt[0] if bp_txt else None
                 if checked and marked != ([ref.selection] if ref.selection else []):
                     V.append(Violation('halt.selection_state', case, {'step': n, 'command': text, 'expected_selected': ref.selection,
